@@ -170,4 +170,10 @@ class AppendOnly(Monitor):
                              {"index": i, "pre": ra.get("next"), "post": rb.get("next")})
                 if (ra.get("ctxs") or {}).get("out") != (rb.get("ctxs") or {}).get("out"):
                     return v("decided_record_changed", "ctxs.out", ra)
+                ka = {k: x for k, x in ra.items() if k not in ("term", "ignore")}
+                kb = {k: x for k, x in rb.items() if k not in ("term", "ignore")}
+                if ka != kb:
+                    which = sorted(k for k in set(ka) | set(kb) if ka.get(k) != kb.get(k))[0]
+                    return v("decided_record_changed", which, ra,
+                             {"index": i, "pre": ka.get(which), "post": kb.get(which)})
         return []
